@@ -88,21 +88,33 @@ class BinOp(HarnessBase):
     validate_max = 8
     max_paths = 200
 
-    def __init__(self, lk, rk, op, lu, ru, iv=None):
+    def __init__(self, lk, rk, op, lu, ru, iv=None, pre=None):
         self.lk, self.rk, self.op, self.lu, self.ru, self.iv = lk, rk, op, lu, ru, iv
-        self.name = 'binop:%s:%s:%s' % (op, lk, rk)
+        self.pre = pre          # (unit the left operand is constructed in, unit the right operand is constructed in)
+        self.name = 'binop:%s:%s:%s%s' % (op, lk, rk, ':after_inplace' if pre else '')
 
     def describe(self):
-        return dict(left=self.lk, right=self.rk, op=self.op, units=[self.lu, self.ru], int_value=self.iv)
+        return dict(left=self.lk, right=self.rk, op=self.op, units=[self.lu, self.ru], int_value=self.iv,
+                    constructed_in=self.pre)
 
     def finding_key(self, ob, values):
         return 'binop:%s:%s:%s:%s' % (self.op, self.lk, self.rk, ob.family)
 
     def run(self, env):
-        x = mk(env, self.lk, 'a', self.lu, self.iv)
-        y = mk(env, self.rk, 'b', self.ru, self.iv)
-        rec = dict(a=si_of(x), b=si_of(y), a_raw=x.value if hasattr(x, 'value') else x,
-                   b_raw=y.value if hasattr(y, 'value') else y)
+        if self.pre:
+            # history: the operands were constructed in another unit and converted IN PLACE to (lu, ru) before the operation
+            x = mk(env, self.lk, 'a', self.pre[0] or self.lu, self.iv)
+            y = mk(env, self.rk, 'b', self.pre[1] or self.ru, self.iv)
+            if self.pre[0]:
+                x.to(self.lu, inplace=True)
+            if self.pre[1]:
+                y.to(self.ru, inplace=True)
+        else:
+            x = mk(env, self.lk, 'a', self.lu, self.iv)
+            y = mk(env, self.rk, 'b', self.ru, self.iv)
+        rec = dict(a=self._si_sym(env, 'a', self.lk, self.pre[0] if self.pre and self.pre[0] else self.lu, x),
+                   b=self._si_sym(env, 'b', self.rk, self.pre[1] if self.pre and self.pre[1] else self.ru, y),
+                   a_raw=x.value if hasattr(x, 'value') else x, b_raw=y.value if hasattr(y, 'value') else y)
         try:
             r = OPS[self.op](x, y)
         except TypeError:
@@ -131,6 +143,18 @@ class BinOp(HarnessBase):
         rec['a_after'] = si_of(x)
         rec['b_after'] = si_of(y)
         return rec
+
+    @staticmethod
+    def _si_sym(env, name, kind, unit, obj):
+        """SI magnitude of the operand as the user defined it (symbol x oracle factor of the unit it was constructed in)"""
+        if kind in NUMS:
+            return obj
+        v = env.real(name) if env.symbolic else env.values.get(name, 0.0)
+        f = si.SI[kind][unit]
+        if isinstance(v, SR):
+            return SR(v.t * z3.RealVal(f))
+        from fractions import Fraction
+        return float(Fraction(v) * f)
 
     # -- oracle ----------------------------------------------------------------
     def dictated(self):
@@ -314,6 +338,16 @@ def specs(tier, seed):
                 for lu, ru in pairs:
                     for iv in ivs:
                         cells.append(('binop', lk, rk, op, lu, ru, iv))
+                # the same operation on operands that were converted in place beforehand (left, right, both)
+                if lk not in NUMS and len(lus) > 1:
+                    lu0 = lus[(lus.index(pairs[-1][0]) + 1) % len(lus)]
+                    ru0 = rus[(rus.index(pairs[-1][1]) + 1) % len(rus)] if rk not in NUMS and len(rus) > 1 else None
+                    cells.append(('binop', lk, rk, op, pairs[-1][0], pairs[-1][1], ivs[0], (lu0, None)))
+                    if ru0:
+                        cells.append(('binop', lk, rk, op, pairs[-1][0], pairs[-1][1], ivs[0], (lu0, ru0)))
+                elif rk not in NUMS and len(rus) > 1:
+                    ru0 = rus[(rus.index(pairs[-1][1]) + 1) % len(rus)]
+                    cells.append(('binop', lk, rk, op, pairs[-1][0], pairs[-1][1], ivs[0], (None, ru0)))
             if lk not in NUMS and rk not in NUMS and fam(lk) == fam(rk):
                 lus, rus = _units(lk), _units(rk)
                 pairs = [(lu, ru) for lu in lus for ru in rus] if tier == 'thorough' else \
@@ -347,7 +381,7 @@ REQUIRED_TRIGGERS = {'quick': ('si_magnitude', 'result_kind_dictated', 'same_kin
                                'meaningless_op_raises_TypeError', 'add_then_sub_restores', 'sub_antisymmetric')}
 BOUNDS = {
     'quick': 'all 15x15 ordered operand-kind pairs x 4 operators (exhaustive); 2 unit pairs per cell (one fixed, '
-             'one seeded); int operand in {0,1,-1,2,-3}; magnitudes: all reals within the sign constraint',
+             'one seeded) on fresh operands plus 1-2 cells per combination on operands converted IN PLACE from another unit first; int operand in {0,1,-1,2,-3}; magnitudes: all reals within the sign constraint',
     'thorough': 'as quick with every unit pair (<= 40 seeded + 2 fixed pairs for the largest kinds)',
 }
 OUTSIDE = 'floating-point rounding of the operations (doubles are treated as reals); non-finite operands'
